@@ -83,6 +83,14 @@ func NewWorld(seed int64) *World {
 	w.tok = tok
 	lib.Must(c.NextBlock())
 	lib.Must(c.NextBlock())
+	// touch both precompiles once so that their (empty) accounts exist before the compared runs, as on a live chain
+	for _, pc := range []common.Address{lib.StakingPrecompile, lib.CrosschainPrecompile} {
+		pc := pc
+		c.EvmCall(c.Ctx, w.user.Hex(), &pc, nil, 100_000, []byte{1, 2, 3, 4, 5, 6, 7, 8})
+		if c.App.AccountKeeper.GetAccount(c.Ctx, pc.Bytes()) == nil {
+			c.EnsureAccount(c.Ctx, pc.Bytes())
+		}
+	}
 	w.base, _ = c.Ctx.CacheContext()
 	w.basePeriod = w.period(w.base)
 	w.probeRewards()
